@@ -630,13 +630,28 @@ func (st *Stack) compactRange(first, last int, expiration *LogExpirationConfig) 
 		return false, err
 	}
 
-	lockFileName = st.listFile + ".lock"
-	lockFile, err = os.OpenFile(lockFileName, os.O_EXCL|os.O_CREATE|os.O_WRONLY, 0644)
+	lockFile, err = os.OpenFile(st.listFile+".lock", os.O_EXCL|os.O_CREATE|os.O_WRONLY, 0644)
 	if err != nil {
+		if tmpTable != "" {
+			os.Remove(tmpTable)
+		}
+		if os.IsExist(err) {
+			// lost the race for the lock
+			return false, nil
+		}
 		return false, err
 	}
+	lockFileName = st.listFile + ".lock"
 
 	defer lockFile.Close()
+
+	// The list may have changed while it was unlocked.
+	if ok, err := st.UpToDate(); !ok || err != nil {
+		if tmpTable != "" {
+			os.Remove(tmpTable)
+		}
+		return false, err
+	}
 
 	fn := formatName(
 		st.stack[first].MinUpdateIndex(),
